@@ -491,9 +491,38 @@ func genTimeScenario(r *rng, cold bool) *Scenario {
 	return sc
 }
 
+// genContendScenario: every task compiles the SAME one or two type-generic sources on
+// ONE shared, warmed engine under different typings of their names and invokes what
+// it got: anything keyed by source text alone (memo, in-flight table, cached AST)
+// hands one task the other task's compilation.
+func genContendScenario(r *rng) *Scenario {
+	sc := &Scenario{}
+	user := r.chance(0.4)
+	sc.Shared = []EngineSpec{{backends[r.intn(4)], user}}
+	warm := pickProg(r, user)
+	sc.Pre = []PreCompile{{0, warm}}
+	srcs := []string{genericSrcs[r.intn(len(genericSrcs))], genericSrcs[r.intn(len(genericSrcs))]}
+	k := 2 + r.intn(3)
+	for t := 0; t < k; t++ {
+		var ops []Op
+		n := 1 + r.intn(3)
+		for j := 0; j < n; j++ {
+			p := Prog{srcs[r.intn(2)], genericEnvs[r.intn(4)], false, true}
+			ops = append(ops, Op{K: "compile", E: 0, ES: true, Prog: &p})
+			ops = append(ops, Op{K: "invoke", C: len(ops) - 1, Env: p.Env, EnvSh: r.chance(0.3)})
+		}
+		sc.Tasks = append(sc.Tasks, ops)
+	}
+	sc.Sim = genSimConfig(r)
+	return sc
+}
+
 func genScenario(r *rng, cold bool) *Scenario {
 	if r.chance(0.12) {
 		return genTimeScenario(r, cold)
+	}
+	if !cold && r.chance(0.12) {
+		return genContendScenario(r)
 	}
 	sc := &Scenario{}
 	k := 2 + r.intn(3)
